@@ -104,28 +104,31 @@ fn c17_fill_le_bytes() {
     kani::cover!(bps == 5);
 }
 
-/// `Context::fill_le_bytes`: a bytes-per-sample that disagrees with the width the context was
-/// created for is an error (otherwise the MD5 and the sample count silently diverge).
-//@ unit props=C17 tier=quick kind=complete timeout=600 funcs="Context::fill_le_bytes; Context::new"
+/// `FrameBuf::verify_samples(bits)`:  Ok  <=>  every FILLED sample of every channel lies in
+/// [-2^(bits-1), 2^(bits-1)-1]; samples beyond `filled_size` are not looked at.
+//@ unit props=C17 tier=quick kind=complete timeout=900 funcs="FrameBuf::verify_samples; find_min_and_max" bound="2 channels x 2 filled samples of capacity 3; every i32 value, every supported width"
 #[kani::proof]
-#[kani::unwind(10)]
+#[kani::unwind(66)]
 #[kani::stub(std::fmt::format, stub_format)]
-fn c17_context_fill_le_bytes_width() {
+fn c17_verify_samples() {
+    let vals: [i32; 4] = kani::any();
+    let samples = vec![vals[0], vals[1], i32::MAX, vals[2], vals[3], i32::MIN];
+    let fb = framebuf_from_parts(samples, 3, 2);
     let bits: usize = kani::any();
     kani::assume(bits == 8 || bits == 12 || bits == 16 || bits == 20 || bits == 24);
-    let ch: usize = kani::any();
-    kani::assume(1 <= ch && ch <= 8);
-    let mut ctx = Context::new(bits, ch);
-    let data: [u8; 8] = kani::any();
-    let n: usize = kani::any();
-    kani::assume(1 <= n && n <= 8);
-    let bps: usize = kani::any();
-    let before = ctx.total_samples();
-    let r = ctx.fill_le_bytes(&data[0..n], bps);
-    if bps != (bits + 7) / 8 {
-        assert!(r.is_err());
-        assert!(ctx.total_samples() == before);
+    let lo = -(1i64 << (bits - 1));
+    let hi = (1i64 << (bits - 1)) - 1;
+    let mut all_in = true;
+    let mut i = 0;
+    while i < 4 {
+        let v = vals[i] as i64;
+        if v < lo || v > hi {
+            all_in = false;
+        }
+        i += 1;
     }
-    kani::cover!(bps == (bits + 7) / 8);
-    kani::cover!(bps == 0);
+    let r = fb.verify_samples(bits);
+    assert!(r.is_ok() == all_in);
+    kani::cover!(all_in);
+    kani::cover!(!all_in);
 }
